@@ -1,34 +1,619 @@
+// c10: @defer -- direct spec checks on the real ExecutionEngine (mode spec) and frame-level
+// correspondence of the real Resolver with the Coq model on hand-built deferred plans (mode corr).
+//
+//	c10 spec -seed S -n N -orders K [-cfg mono,entity,fed] [-workers W] -out FILE
+//	c10 probe -cfg C -useed S [-harsh H] -op 'query' [-vars '{}'] [-orders K]
+//	c10 replay -in corpus-file -out FILE
+//	c10 corr -seed S -n N -out FILE
+//
+// spec: one line per (operation, universe, completion order):
+//
+//	(c10spec (cfg "c") (useed n harsh) (op "text") (vars "json") (picks n...) (frames (fr (p id...) (i id...) (c id...) (hn t|f|n))...)
+//	         (term t|f) (ndefer n) (go (clause "detail")...) (nt t|f))
 package main
 
 import (
 	"fmt"
 	"os"
+	"sort"
+	"strconv"
+	"strings"
+	"sync"
+	"time"
 
 	"gvh/c10lab"
-	"gvh/fedlab"
+	"gvh/common"
+	fl "gvh/fedlab"
 )
 
-func main() {
-	cfg, u := fedlab.Example()
-	ex, err := fedlab.NewExecServer("")
+type opCase struct {
+	cfg    string
+	useed  uint64
+	harsh  int
+	op     *fl.Operation
+	kinds  map[string]int
+	lines  []string
+	report []string
+	stats  map[string]int
+	fails  []c10lab.Fail
+	keepUniverse bool
+	idx int
+}
+
+type worker struct {
+	exec *fl.ExecServer
+	labs map[string]*c10lab.Lab
+}
+
+func newWorker(cfgs []string) *worker {
+	ex, err := fl.NewExecServer("")
 	if err != nil {
+		fmt.Fprintln(os.Stderr, "exec server:", err)
+		os.Exit(2)
+	}
+	w := &worker{exec: ex, labs: map[string]*c10lab.Lab{}}
+	for _, c := range cfgs {
+		lab, err := c10lab.NewLab(c10lab.ConfigByName(c), nil, ex)
+		if err != nil {
+			fmt.Fprintln(os.Stderr, "lab", c, ":", err)
+			os.Exit(2)
+		}
+		w.labs[c] = lab
+	}
+	return w
+}
+
+func frameSummary(s *c10lab.Stream) string {
+	var fr []string
+	for _, f := range s.Frames {
+		if f.ParseErr != "" {
+			fr = append(fr, "(bad)")
+			continue
+		}
+		p, i, c := []string{"p"}, []string{"i"}, []string{"c"}
+		for _, x := range f.Pending {
+			p = append(p, num(x.ID))
+		}
+		for _, x := range f.Incr {
+			i = append(i, num(x.ID))
+		}
+		for _, x := range f.Completed {
+			c = append(c, num(x.ID))
+		}
+		hn := "n"
+		if f.HasNext == 1 {
+			hn = "t"
+		} else if f.HasNext == 0 {
+			hn = "f"
+		}
+		fr = append(fr, common.L("fr", common.L(p...), common.L(i...), common.L(c...), common.L("hn", hn)))
+	}
+	return common.L(append([]string{"frames"}, fr...)...)
+}
+
+// ids are decimal strings in the wire format; anything else is mapped to 0 (never announced)
+func num(id string) string {
+	if n, err := strconv.Atoi(id); err == nil && n > 0 {
+		return strconv.Itoa(n)
+	}
+	return "0"
+}
+
+type orderPlan struct {
+	maxOrders int
+	allIfLE   int // enumerate all orders when the first run shows at most this many announced ids
+	randomN   int
+}
+
+// runOne executes the deferred operation under one chooser and evaluates every clause.
+func runOne(lab *c10lab.Lab, oc *opCase, text, vars string, chooser c10lab.Chooser, refs *refs) (*c10lab.Run, *c10lab.Stream, []c10lab.Fail) {
+	run := lab.Execute(text, oc.op.Name, []byte(vars), chooser, 8*time.Second)
+	s := c10lab.StreamOf(run)
+	var fails []c10lab.Fail
+	if len(s.Frames) == 0 {
+		// no frame: a planning / validation error.  Compare with the non-deferred query.
+		if refs.gwErr == "" {
+			fails = append(fails, c10lab.Fail{Clause: "exec_error", Detail: "the query fails only with @defer: " + s.ExecErr})
+		}
+		return run, s, fails
+	}
+	fails = append(fails, c10lab.CheckFramesWhole(s)...)
+	fails = append(fails, c10lab.CheckProtocol(s)...)
+	if s.Frames[0].ParseErr == "" {
+		rec, mf := c10lab.Reconstruct(s)
+		fails = append(fails, mf...)
+		failed := c10lab.FailedAnchors(s)
+		if rec != nil && len(mf) == 0 {
+			if refs.mono != nil && refs.monoInvalid == "" {
+				if d := c10lab.Compare(refs.mono, rec, failed); d != "" {
+					fails = append(fails, c10lab.Fail{Clause: "reconstruct/mono", Detail: d})
+				}
+			}
+			if refs.gwErr == "" && refs.gw != nil {
+				if d := c10lab.Compare(refs.gw, rec, failed); d != "" {
+					fails = append(fails, c10lab.Fail{Clause: "reconstruct/gateway", Detail: d})
+				}
+			}
+		}
+	}
+	return run, s, fails
+}
+
+type refs struct {
+	mono        *fl.J
+	monoErrors  int
+	monoInvalid string
+	gw          *fl.J
+	gwErr       string
+	gwRaw       string
+	ifFalse     *fl.J
+	ifFalseRaw  string
+	ifFalseErr  string
+}
+
+func announcedIDs(s *c10lab.Stream) int {
+	ids := map[string]bool{}
+	for _, f := range s.Frames {
+		for _, p := range f.Pending {
+			ids[p.ID] = true
+		}
+	}
+	return len(ids)
+}
+
+func hasNestedAnnouncement(s *c10lab.Stream) bool {
+	for i, f := range s.Frames {
+		if i > 0 && len(f.Pending) > 0 {
+			return true
+		}
+	}
+	return false
+}
+
+func q(s string) string { return common.QS(s) }
+
+func processOp(w *worker, oc *opCase, plan orderPlan, rseed uint64) {
+	lab := w.labs[oc.cfg]
+	oc.stats = map[string]int{}
+	if !oc.keepUniverse {
+		r := common.NewRand(oc.useed)
+		u := c10lab.GenUniverseHarsh(r, lab.Config, oc.harsh)
+		if err := lab.SetUniverse(u); err != nil {
+			oc.report = append(oc.report, "set universe: "+err.Error())
+			return
+		}
+		if oc.op == nil {
+			oc.op, oc.kinds = c10lab.GenDeferOperation(r, lab.Config, u)
+		}
+	}
+	text := oc.op.Text()
+	vars := oc.op.VariablesJSON()
+	nd := c10lab.StripDefer(oc.op)
+	c10lab.PruneVars(nd)
+	ndText := nd.Text()
+	iff := c10lab.DeferIfFalse(oc.op)
+	c10lab.PruneVars(iff)
+	iffText := iff.Text()
+
+	rf := &refs{}
+	if m, err := lab.Mono(ndText, nd.Name, []byte(vars)); err != nil {
+		rf.monoInvalid = err.Error()
+	} else {
+		rf.mono, rf.monoErrors, rf.monoInvalid = m.Data, m.NErrors, m.Invalid
+	}
+	gwRun := lab.Execute(ndText, nd.Name, []byte(vars), nil, 8*time.Second)
+	gws := c10lab.StreamOf(gwRun)
+	if len(gws.Frames) != 1 || gws.Frames[0].ParseErr != "" {
+		rf.gwErr = "no single frame: " + gws.ExecErr
+	} else {
+		rf.gw, rf.gwRaw = gws.Frames[0].Data, string(gws.Frames[0].Raw)
+	}
+	ifRun := lab.Execute(iffText, iff.Name, []byte(vars), nil, 8*time.Second)
+	ifs := c10lab.StreamOf(ifRun)
+	var opFails []c10lab.Fail
+	if rf.gwErr == "" {
+		if len(ifs.Frames) != 1 || ifs.Frames[0].ParseErr != "" {
+			opFails = append(opFails, c10lab.Fail{Clause: "if_false", Detail: fmt.Sprintf("@defer(if:false) gives %d frames / %s", len(ifs.Frames), ifs.ExecErr)})
+		} else {
+			f := ifs.Frames[0]
+			if f.HasNext == 1 || len(f.Pending) > 0 {
+				opFails = append(opFails, c10lab.Fail{Clause: "if_false", Detail: "@defer(if:false) still announces incremental delivery: " + string(f.Raw)})
+			}
+			if d := c10lab.Compare(rf.gw, f.Data, nil); d != "" {
+				opFails = append(opFails, c10lab.Fail{Clause: "if_false", Detail: "data differs from the query without @defer: " + d})
+			}
+		}
+	} else {
+		oc.stats["nodefer_fails"]++
+	}
+	if rf.gwErr == "" && rf.monoInvalid == "" && rf.mono != nil && rf.gw != nil {
+		if d := c10lab.Compare(rf.mono, rf.gw, nil); d != "" {
+			oc.stats["c01_mono_vs_gateway_differs"]++
+		}
+	}
+
+	emit := func(run *c10lab.Run, s *c10lab.Stream, fails []c10lab.Fail) {
+		picks := []string{"picks"}
+		for _, p := range run.Picked {
+			picks = append(picks, strconv.Itoa(p))
+		}
+		oc.fails = append(oc.fails, opFails...)
+		oc.fails = append(oc.fails, fails...)
+		gof := []string{"go"}
+		for _, f := range append(append([]c10lab.Fail{}, opFails...), fails...) {
+			gof = append(gof, common.L(f.Clause, q(f.Detail)))
+		}
+		n := announcedIDs(s)
+		nt := n >= 2 || hasNestedAnnouncement(s)
+		term := !s.TimedOut
+		line := common.L("c10spec", common.L("cfg", q(oc.cfg)), common.L("useed", strconv.FormatUint(oc.useed, 10), strconv.Itoa(oc.harsh)),
+			common.L("op", q(text)), common.L("vars", q(vars)), common.L(picks...), frameSummary(s),
+			common.L("term", common.B(term)), common.L("compl", strconv.Itoa(s.Completes)), common.L("ndefer", strconv.Itoa(n)), common.L(gof...), common.L("nt", common.B(nt)))
+		oc.lines = append(oc.lines, line)
+		if len(fails)+len(opFails) > 0 {
+			var sb strings.Builder
+			fmt.Fprintf(&sb, "FAIL idx=%d cfg=%s useed=%d harsh=%d picks=%v\n  op: %s\n  vars: %s\n", oc.idx, oc.cfg, oc.useed, oc.harsh, run.Picked, text, vars)
+			for _, f := range append(append([]c10lab.Fail{}, opFails...), fails...) {
+				fmt.Fprintf(&sb, "  %s: %s\n", f.Clause, f.Detail)
+			}
+			for i, f := range s.Frames {
+				fmt.Fprintf(&sb, "  F%d %s\n", i, f.Raw)
+			}
+			if s.ExecErr != "" {
+				fmt.Fprintf(&sb, "  exec error: %s\n", s.ExecErr)
+			}
+			fmt.Fprintf(&sb, "  nodefer: %s\n  mono: %s (errors %d)\n", rf.gwRaw, rf.mono.String(), rf.monoErrors)
+			oc.report = append(oc.report, sb.String())
+		}
+		opFails = nil // op-level failures are reported once
+	}
+
+	// first order: always the first blocked request
+	run, s, fails := runOne(lab, oc, text, vars, func(int, []*c10lab.Req) int { return 0 }, rf)
+	emit(run, s, fails)
+	oc.stats["orders"]++
+	n := announcedIDs(s)
+	oc.stats["announced"] = n
+	if len(s.Frames) == 0 || len(run.Choices) == 0 {
+		return
+	}
+	budget := plan.maxOrders - 1
+	seen := map[string]bool{fmt.Sprint(run.Picked): true}
+	// all at once (real concurrency under the DataBuffer lock)
+	if budget > 0 {
+		run2, s2, f2 := runOne(lab, oc, text, vars, func(int, []*c10lab.Req) int { return -1 }, rf)
+		emit(run2, s2, f2)
+		oc.stats["orders"]++
+		budget--
+	}
+	exhaustive := n <= plan.allIfLE
+	prevPicked, prevChoices := run.Picked, run.Choices
+	rr := common.NewRand(rseed)
+	for budget > 0 {
+		var chooser c10lab.Chooser
+		if exhaustive {
+			// next choice list in DFS order
+			i := len(prevPicked) - 1
+			for i >= 0 && prevPicked[i]+1 >= prevChoices[i] {
+				i--
+			}
+			if i < 0 {
+				break
+			}
+			prefix := append(append([]int{}, prevPicked[:i]...), prevPicked[i]+1)
+			chooser = func(step int, b []*c10lab.Req) int {
+				if step < len(prefix) {
+					return prefix[step]
+				}
+				return 0
+			}
+		} else {
+			chooser = func(step int, b []*c10lab.Req) int { return rr.Pick(len(b)) }
+		}
+		run3, s3, f3 := runOne(lab, oc, text, vars, chooser, rf)
+		budget--
+		if len(run3.Choices) == 0 {
+			break
+		}
+		prevPicked, prevChoices = run3.Picked, run3.Choices
+		key := fmt.Sprint(run3.Picked)
+		if seen[key] && !exhaustive {
+			continue
+		}
+		seen[key] = true
+		emit(run3, s3, f3)
+		oc.stats["orders"]++
+	}
+}
+
+func main() {
+	if len(os.Args) < 2 {
+		fmt.Fprintln(os.Stderr, "usage: c10 spec|probe|replay|corr ...")
+		os.Exit(2)
+	}
+	mode := os.Args[1]
+	a := common.Args(os.Args[2:])
+	switch mode {
+	case "spec":
+		specMode(a)
+	case "probe":
+		probeMode(a)
+	case "corr":
+		corrMode(a)
+	case "shrink":
+		shrinkMode(a)
+	default:
+		fmt.Fprintln(os.Stderr, "unknown mode", mode)
+		os.Exit(2)
+	}
+}
+
+func specMode(a map[string]string) {
+	seed := common.ArgU64(a, "seed", 1)
+	n := common.ArgInt(a, "n", 100)
+	orders := common.ArgInt(a, "orders", 6)
+	allLE := common.ArgInt(a, "all", 0)
+	workers := common.ArgInt(a, "workers", 8)
+	cfgs := c10lab.ConfigNames
+	if v, ok := a["cfg"]; ok {
+		cfgs = strings.Split(v, ",")
+	}
+	out := common.NewOut(a["out"])
+	defer out.Close()
+	cases := make([]*opCase, n)
+	for i := range cases {
+		r := common.NewRand(seed*1000003 + uint64(i))
+		cases[i] = &opCase{idx: i, cfg: cfgs[i%len(cfgs)], useed: seed*7919 + uint64(i)*31 + 1, harsh: []int{0, 0, 1, 2, 4}[r.Pick(5)]}
+	}
+	var wg sync.WaitGroup
+	ch := make(chan int)
+	for k := 0; k < workers; k++ {
+		wg.Add(1)
+		go func() {
+			defer wg.Done()
+			w := newWorker(cfgs)
+			defer w.exec.Close()
+			for i := range ch {
+				processOp(w, cases[i], orderPlan{maxOrders: orders, allIfLE: allLE}, seed*31+uint64(i))
+			}
+		}()
+	}
+	for i := range cases {
+		ch <- i
+	}
+	close(ch)
+	wg.Wait()
+	tot := map[string]int{}
+	rep := os.Stderr
+	if p, ok := a["report"]; ok {
+		f, err := os.Create(p)
+		if err == nil {
+			rep = f
+			defer f.Close()
+		}
+	}
+	for _, c := range cases {
+		for _, l := range c.lines {
+			out.Line(l)
+		}
+		for _, r := range c.report {
+			fmt.Fprintln(rep, r)
+		}
+		for k, v := range c.stats {
+			tot[k] += v
+		}
+		for k, v := range c.kinds {
+			tot["gen."+k] += v
+		}
+		tot[fmt.Sprintf("announced=%d", min(c.stats["announced"], 6))]++
+		cl := map[string]bool{}
+		for _, f := range c.fails {
+			cl[classOf(f)] = true
+		}
+		for k := range cl {
+			tot["FAILCLASS "+k+" ;"]++
+		}
+	}
+	keys := make([]string, 0, len(tot))
+	for k := range tot {
+		keys = append(keys, k)
+	}
+	sort.Strings(keys)
+	var sb strings.Builder
+	for _, k := range keys {
+		fmt.Fprintf(&sb, "%s=%d ", k, tot[k])
+	}
+	fmt.Fprintln(os.Stderr, "DIST", sb.String())
+}
+
+func probeMode(a map[string]string) {
+	cfg := a["cfg"]
+	if cfg == "" {
+		cfg = "mono"
+	}
+	w := newWorker([]string{cfg})
+	defer w.exec.Close()
+	lab := w.labs[cfg]
+	useed := common.ArgU64(a, "useed", 1)
+	harsh := common.ArgInt(a, "harsh", 0)
+	r := common.NewRand(useed)
+	u := c10lab.GenUniverseHarsh(r, lab.Config, harsh)
+	if err := lab.SetUniverse(u); err != nil {
 		panic(err)
 	}
-	lab, err := c10lab.NewLab(cfg, u, ex)
-	if err != nil {
-		fmt.Println("newlab:", err)
-		os.Exit(1)
+	if _, ok := a["showu"]; ok {
+		fmt.Println(u.Sexp())
 	}
-	ops := os.Args[1:]
-	for _, op := range ops {
-		run := lab.Execute(op, "", nil, func(step int, b []*c10lab.Req) int { return 0 }, 0)
-		fmt.Println("OP:", op, "err:", run.Err, "timeout:", run.TimedOut, run.Wall)
-		for i, f := range run.Rec.Frames {
-			fmt.Printf("  F%d %s\n", i, f)
+	op := a["op"]
+	vars := a["vars"]
+	orders := common.ArgInt(a, "orders", 1)
+	for k := 0; k < orders; k++ {
+		kk := k
+		run := lab.Execute(op, "", []byte(vars), func(step int, b []*c10lab.Req) int {
+			if kk == orders-1 && orders > 1 {
+				return -1
+			}
+			return kk
+		}, 0)
+		s := c10lab.StreamOf(run)
+		fmt.Println("picks", run.Picked, "choices", run.Choices, "err", run.Err, "completes", s.Completes)
+		for i, f := range s.Frames {
+			fmt.Printf("  F%d %s\n", i, f.Raw)
 		}
-		fmt.Println("  completes:", run.Rec.Completes, "unflushed:", string(run.Rec.Unflushed()), "choices", run.Choices)
 		for _, q := range run.Reqs {
 			fmt.Printf("   [%d p%d] %s %s %s -> %s\n", q.Index, q.Phase, q.Subgraph, q.Query, q.Vars, q.Response)
 		}
+		for _, f := range append(c10lab.CheckFramesWhole(s), c10lab.CheckProtocol(s)...) {
+			fmt.Println("  FAIL", f.Clause, f.Detail)
+		}
+		rec, mf := c10lab.Reconstruct(s)
+		for _, f := range mf {
+			fmt.Println("  FAIL", f.Clause, f.Detail)
+		}
+		if rec != nil {
+			fmt.Println("  reconstructed:", rec.String())
+		}
+	}
+	if nd, ok := a["nodefer"]; ok {
+		m, err := lab.Mono(nd, "", []byte(vars))
+		if err == nil {
+			fmt.Println("  mono:", m.Data.String(), "errors", m.NErrors, m.Invalid)
+		} else {
+			fmt.Println("  mono err:", err)
+		}
+		run := lab.Execute(nd, "", []byte(vars), nil, 0)
+		for i, f := range run.Rec.Frames {
+			fmt.Printf("  ND%d %s\n", i, f)
+		}
+		fmt.Println("  nodefer err:", run.Err)
+	}
+}
+
+func corrMode(a map[string]string) {
+	fmt.Fprintln(os.Stderr, "corr: not built yet")
+	os.Exit(2)
+}
+
+// ---------------------------------------------------------------- shrinking
+
+var digits = strings.NewReplacer("0", "", "1", "", "2", "", "3", "", "4", "", "5", "", "6", "", "7", "", "8", "", "9", "")
+
+// classOf: the clause plus a coarse class of the detail (numbers and values removed).
+func classOf(f c10lab.Fail) string {
+	d := f.Detail
+	for _, cut := range []string{" = ", " without @defer, ", "reconstructed", ": member ", "label \""} {
+		if i := strings.Index(d, cut); i >= 0 {
+			if cut == ": member " {
+				d = "member missing/extra"
+			} else {
+				d = d[:i] + cut
+			}
+		}
+	}
+	if i := strings.LastIndex(d, ": "); i >= 0 && strings.HasPrefix(d, "/") {
+		d = d[i+2:]
+	}
+	d = digits.Replace(d)
+	if len(d) > 60 {
+		d = d[:60]
+	}
+	return f.Clause + "|" + d
+}
+
+func shrinkMode(a map[string]string) {
+	seed := common.ArgU64(a, "seed", 1)
+	idx := common.ArgInt(a, "idx", 0)
+	orders := common.ArgInt(a, "orders", 4)
+	cfgs := c10lab.ConfigNames
+	if v, ok := a["cfg"]; ok {
+		cfgs = strings.Split(v, ",")
+	}
+	want := a["class"]
+	w := newWorker(cfgs)
+	defer w.exec.Close()
+	r := common.NewRand(seed*1000003 + uint64(idx))
+	oc := &opCase{cfg: cfgs[idx%len(cfgs)], useed: seed*7919 + uint64(idx)*31 + 1, harsh: []int{0, 0, 1, 2, 4}[r.Pick(5)]}
+	plan := orderPlan{maxOrders: orders}
+	processOp(w, oc, plan, seed*31+uint64(idx))
+	classes := map[string]bool{}
+	for _, f := range oc.fails {
+		classes[classOf(f)] = true
+	}
+	fmt.Println("classes of the original failure:")
+	for c := range classes {
+		fmt.Println("  ", c)
+	}
+	target := ""
+	for c := range classes {
+		if want == "" || strings.Contains(c, want) {
+			target = c
+			break
+		}
+	}
+	if target == "" {
+		fmt.Println("no failure of the wanted class")
+		return
+	}
+	fmt.Println("shrinking for class:", target)
+	lab := w.labs[oc.cfg]
+	evals := 0
+	stillFails := func(op *fl.Operation) bool {
+		evals++
+		t := &opCase{cfg: oc.cfg, useed: oc.useed, harsh: oc.harsh, op: op, keepUniverse: true}
+		processOp(w, t, plan, 1)
+		for _, f := range t.fails {
+			if classOf(f) == target {
+				return true
+			}
+		}
+		return false
+	}
+	cur := oc.op
+	// universe reductions: drop harsh mutations
+	for changed := true; changed; {
+		changed = false
+		for _, cand := range c10lab.Reductions(cur) {
+			if stillFails(cand) {
+				cur = cand
+				changed = true
+				break
+			}
+		}
+	}
+	// universe: try to repair failing / null positions one at a time
+	u := lab.Universe
+	for _, e := range u.Ents {
+		for i := range e.Fields {
+			old := e.Fields[i].Val
+			if old.Kind != fl.FErr && old.Kind != fl.FNullRef && !(old.Kind == fl.FSc && old.JSON.Kind == fl.JNull) {
+				continue
+			}
+			var repl *fl.FVal
+			td := lab.Config.Super.Type(e.Type)
+			fd := td.Field(e.Fields[i].Name)
+			if fd == nil || !lab.Config.Super.IsLeaf(fd.Type.Base()) || fd.Type.IsList() {
+				continue
+			}
+			repl = &fl.FVal{Kind: fl.FSc, JSON: fl.JS("x")}
+			if fd.Type.Base() == "Int" {
+				repl = &fl.FVal{Kind: fl.FSc, JSON: fl.JNumRaw("1")}
+			}
+			e.Fields[i].Val = repl
+			lab.SetUniverse(u)
+			if !stillFails(cur) {
+				e.Fields[i].Val = old
+				lab.SetUniverse(u)
+			}
+		}
+	}
+	fmt.Println("evaluations:", evals)
+	fmt.Println("MINIMAL cfg:", oc.cfg)
+	fmt.Println("op:", cur.Text())
+	fmt.Println("vars:", cur.VariablesJSON())
+	fmt.Println("universe:", u.Sexp())
+	t := &opCase{cfg: oc.cfg, useed: oc.useed, harsh: oc.harsh, op: cur, keepUniverse: true}
+	processOp(w, t, plan, 1)
+	for _, rep := range t.report {
+		fmt.Println(rep)
 	}
 }
